@@ -221,27 +221,43 @@ def without_thumbnail(v):
     return v
 
 
+# small assets whose *every* stream call gets a failure injected (quick and thorough): the signed fixtures below make at most
+# ~50 calls per read; the unsigned sources are signed first (ordinary cursors) and the signed asset is then read through the
+# wrapper, split over several cases (parts) so that the shards share the work
+ALL_K_READS = [("CA.jpg", "image/jpeg"), ("cloud_manifest.c2pa", "application/c2pa"), ("boxhash.jpg", "image/jpeg"), ("XCA.jpg", "image/jpeg")]
+ALL_K_SIGNED = [("TUSCANY.TIF", "image/tiff", 5), ("sample1.avif", "image/avif", 5), ("libpng-test.png", "image/png", 2),
+                ("sample1.webp", "image/webp", 1), ("sample1.svg", "image/svg+xml", 1), ("earth_apollo17.jpg", "image/jpeg", 1),
+                ("sample1.wav", "audio/wav", 1)]
+
+
 def gen_cases(ctx):
     rng, quick = ctx.rng, ctx.quick()
     cases = []
-    reads = READ_FIXTURES[:QUICK_READ] if quick else READ_FIXTURES
     srcs = [s for s in c40.SOURCES if s[2] == 0 or not quick] + ([("sample1.wav", "audio/wav", 1)] if quick else [])
-    nfail = 28 if quick else 400
-    for fx, fmt in reads:
-        cases.append({"op": "read", "fixture": fx, "format": fmt})
+    nfail = 24 if quick else 400
+    nseeds = 2 if quick else 6
+    for fx, fmt in ALL_K_READS:
+        cases.append({"op": "read", "fixture": fx, "format": fmt, "fail_auto": {"n": 1000000}})
+    for fx, fmt, parts in ALL_K_SIGNED:
+        for part in range(parts):
+            cases.append({"op": "read_signed", "fixture": fx, "format": fmt, "alg": "ed25519", "fail_auto": {"parts": parts, "part": part},
+                          "nseeds": nseeds if part == 0 else 0})
+    for fx, fmt in READ_FIXTURES:
+        if (fx, fmt) not in ALL_K_READS and (not quick or fx in ("video1.mp4", "CACAE-uri-CA.jpg")):
+            cases.append({"op": "read", "fixture": fx, "format": fmt, "fail_auto": {"n": nfail}})
     for fx, fmt, w in srcs:
         nf = nfail if w == 0 or quick else 80          # the large fixtures make thousands of calls per run: sample them
-        cases.append({"op": "sign", "fixture": fx, "format": fmt, "alg": rng.choice(["ed25519", "es256", "ps256"]), "nf": nf})
+        cases.append({"op": "sign", "fixture": fx, "format": fmt, "alg": rng.choice(["ed25519", "es256", "ps256"]), "fail_auto": {"n": nf}})
     for c in cases:
-        c["seeds"] = [rng.randrange(1, 1 << 30) for _ in range(2 if quick else 6)]
+        c["seeds"] = [rng.randrange(1, 1 << 30) for _ in range(c.pop("nseeds", nseeds))]
         c["maxchunk"] = rng.choice([1, 2, 3, 7, 64, 1000])
-        c["fail_auto"] = {"n": c.pop("nf", nfail), "seed": rng.randrange(1, 1 << 30), "sticky_every": 4}
+        c["fail_auto"].update({"seed": rng.randrange(1, 1 << 30), "sticky_every": 4})
         c["trace"] = True
     # the same with failures counted over one kind of call only (so that late writes / seeks are reached)
     for kind in ("write", "seek", "read"):
         fx, fmt, _ = rng.choice(srcs[:6])
         cases.append({"op": "sign", "fixture": fx, "format": fmt, "alg": "ed25519", "seeds": [], "maxchunk": 7, "fail_kinds": kind,
-                      "fail_auto": {"n": 24 if quick else 400, "seed": rng.randrange(1, 1 << 30), "sticky_every": 3}, "trace": True})
+                      "fail_auto": {"n": 20 if quick else 400, "seed": rng.randrange(1, 1 << 30), "sticky_every": 3}, "trace": True})
     return cases
 
 
@@ -265,6 +281,8 @@ def evaluate(ctx, cases):
         if r["r"] in ("panic", "crash"):
             ctx.report_violation(c, f"harness case died: {r.get('msg')}", {"step": "crash", "same": False, "state": None, "thumb_only": False})
             continue
+        if r["r"] == "setup_err":
+            raise TieBroken(f"c35: cannot sign {c['fixture']} for the read_signed case: {r.get('kind')}")
         base = r["base"]
         stats["ops_per_case"][tag] = r["ops"]
         stats["formats"][c["format"]] = stats["formats"].get(c["format"], 0) + 1
@@ -445,7 +463,8 @@ def run(ctx):
     ctx.coverage.update({
         "evaluations": evals + nmodel, "distinct_nontrivial": distinct,
         "rule": "each case = one (operation, fixture, format); evaluations = chunked runs (seeded short reads/writes) + failure runs "
-                "(failure injected at the k-th stream call: first 10, last 5 and seeded picks in the quick tier, up to 400 calls per case (every k when the run makes fewer) in the thorough tier; "
+                "(failure injected at the k-th stream call: EVERY call for the small signed assets of each format incl. a signed TIFF — jpeg, c2pa, tiff, avif, png, webp, svg, wav —, "
+                "first 10, last 5 and seeded picks elsewhere (24 per case quick, up to 400 thorough); "
                 "one in four sticky) + model/reference runs; non-trivial = the failing call was actually reached; distinct by (case, kind, k/seed)",
         "distribution": stats,
         "model_vs_reference_runs": nmodel, "model_vs_reference_disagreements": nbad,
@@ -459,6 +478,7 @@ def search(ctx):
     cases = gen_cases(ctx)
     for i, c in enumerate(cases):
         c["id"] = i
-        c["fail_auto"]["n"] = 80
+        if "parts" not in c["fail_auto"]:
+            c["fail_auto"]["n"] = max(80, c["fail_auto"].get("n", 0))
     stats, distinct, evals = evaluate(ctx, cases)
     ctx.coverage["search_evaluations"] = evals
